@@ -389,6 +389,13 @@ def _check_assembly(ctx, co, model):
                 if bad:
                     break
         if bad is None:
+            # centres on integer positions, once as an integer array and once as floats: the same matrix
+            ci_ = np.array([[0, 0, 0], [1, -1, 2], [-2, 1, 1], [1, 2, -1]])
+            ki, Si = model.run(co, [A, ci_])
+            kf, Sf = model.run(co, [A, ci_.astype(float)])
+            if "raises" in (ki, kf) or _mdiff(Si, Sf):
+                bad = f"centres given as an integer array give another matrix than the same centres as floats ({Si if ki == 'raises' else (Sf if kf == 'raises' else _mdiff(Si, Sf))}): the result takes its type from the geometry"
+        if bad is None:
             kt, St = model.run(co, [A, c + np.array([0.37, -1.21, 2.05])])
             if kt == "raises" or _mdiff(St, S):
                 bad = f"translating all centres changes the matrix ({St if kt == 'raises' else _mdiff(St, S)})"
